@@ -10,7 +10,7 @@
    fields and hold what the generated constructor assigns (length slots = len of the referring field).
      Where Ser.v and the emitted code differ (inputs outside those side conditions) is recorded in Proofs/RenderSer.v as
    `..._differs` examples: a non-object passed as `data`, text values in enum / array slots, a switch without cases. *)
-From EO Require Import Prelude.Py Model.Writer Model.Spec Model.Elab Model.Ser Model.PyStmt Model.RenderSer Model.RenderCheck Proofs.RenderSer.
+From EO Require Import Prelude.Py Model.Writer Model.Spec Model.Elab Model.Ser Model.PyStmt Model.RenderSer Model.RenderCheck Proofs.RenderSer Proofs.Shaped.
 Open Scope Z_scope.
 
 (* one method body: header, try / finally mode restore and the instruction statements *)
@@ -46,3 +46,13 @@ Print Assumptions C02_program_is_ser_struct.
 (* the side conditions are satisfiable: a concrete nested object built by the generated constructors *)
 Example C02_program_nonvacuous : program_ok demo_env [] demo_prog /\ hok demo_env (ctor_slots demo_env) 2 "Outer" demo_obj.
 Proof. exact (conj demo_program_ok demo_hok). Qed.
+
+(* the slot side condition is discharged for EVERY object that is an instance of its class as far as Python types go - valid or not
+   (a required field left None, wrong lengths, numbers out of range, case data of the wrong class all stay `shapedb`): for those, the
+   program parsed from the generated text computes ser_struct, from every writer state.  `shape_static E` (decidable) holds of what
+   `elab` produces: length fields distinct from public names and referenced as `Elab.fix_refs` says. *)
+Theorem C02_program_is_ser_struct_on_shaped : forall E enums P fuel cls v w,
+  program_ok E enums P -> shape_static E = true -> shapedb fuel E cls v = true ->
+  py_serialize P (ctor_slots E) fuel cls v w = ser_struct fuel E cls v w.
+Proof. exact shaped_program_correct. Qed.
+Print Assumptions C02_program_is_ser_struct_on_shaped.
